@@ -23,6 +23,12 @@ fn canon_map(m: &HashMap<String, Vec<(String, usize)>>) -> String {
 }
 
 fn judge_tokens(rep: &mut Report, text: &str, class: &str, wellformed: bool) {
+    judge_tokens_with(rep, text, class, wellformed, None)
+}
+
+/// `expected`: the fields the text was rendered from, when the independent tokeniser's tag shapes (`NN`, `NNA`) do not
+/// cover the tags used (numbered tags `50#1`, which the library documents as tags it keeps whole)
+fn judge_tokens_with(rep: &mut Report, text: &str, class: &str, wellformed: bool, expected: Option<&[tok::Chunk]>) {
     let t2 = text.to_string();
     let r = std::panic::catch_unwind(move || parse_block4_fields(&t2));
     let out = match &r {
@@ -40,7 +46,7 @@ fn judge_tokens(rep: &mut Report, text: &str, class: &str, wellformed: bool) {
         Ok(Err(_)) => { if wellformed { rep.fail(&format!("reject_valid|parse_block4_fields|{class}"), w("a well-formed text block was rejected", json!(null))); } }
         Ok(Ok(m)) => {
             if !wellformed { return; }
-            let (chunks, _, _) = tok::tokenise(text);
+            let (chunks, _, _) = match expected { Some(e) => (e.to_vec(), String::new(), String::new()), None => tok::tokenise(text) };
             // flatten the map back to input order by stamp
             let mut flat: Vec<(String, String, usize)> = m.iter().flat_map(|(k, v)| v.iter().map(move |(val, p)| (k.clone(), val.clone(), *p))).collect();
             flat.sort_by_key(|x| x.2);
@@ -237,6 +243,15 @@ pub fn run(o: &Opts) -> Report {
                     judge_tokens(&mut rep, t4.trim_end_matches(['\n', '\r']), "last-content-ends-in-dash", wf);
                     judge_tokens(&mut rep, &t4, "last-content-ends-in-dash-nl", wf);
                 }
+            }
+            // numbered tags (`:50#1:`, `:50#2:` — the library documents that it keeps them whole) at a non-first position
+            if n % 5 == 1 && msg.chunks.len() >= 2 && wf {
+                let mut c5 = msg.chunks.clone();
+                let i = 1 + rng.below(c5.len() - 1);
+                let num: String = c5[i].tag.chars().take_while(|c| c.is_ascii_digit()).collect();
+                c5[i].tag = format!("{num}#{}", 1 + rng.below(2));
+                let t5 = tok::render(&c5, eol, false);
+                judge_tokens_with(&mut rep, &t5, "numbered-tag", true, Some(&c5));
             }
             // mutants: leading junk before the first field, a content line starting with ':', an empty value
             if n % 5 == 0 {
